@@ -387,8 +387,8 @@ def H4_debits(ctx):
     ctx.ob('H4', f, 'debit-scan', n >= 1 and kinds == {'BalanceTransfer', 'AccountDestroyed'} and rp and not bad, f'first-debit inserts={n} sources={sorted(kinds)} root-transfer test={bool(rp)} {bad[:2]}', site=f.loc(f.b['lo']),
            what='surviving journal entries after the checkpoint are scanned; the root value transfer is excluded once; sources are BalanceTransfer.from and AccountDestroyed.address; only sources whose code is an EIP-7702 designator are kept, and the FIRST debit index is kept (or_insert)')
     okd = False
-    for c in ctx.facts.bodies:
-        if c['kind'] == 'closure' and c['fn'].startswith(f.name + '::'):
+    for c in ctx.facts.closures_under(f.name):
+        if True:
             for bl in c['blocks']:
                 if bl['term']['k'] == 'call' and bl['term']['callee'].endswith('Bytecode::is_eip7702'):
                     okd = True
